@@ -1582,6 +1582,8 @@ class AEval(dtable.Eval):
             if m == "values" and r[0] == "list":
                 return L(*[x[1][1] if x[0] == "tuple" and len(x[1]) == 2 else x for x in r[1]])
             return r
+        if r[0] in ("list", "str", "int") and m in ("into_inner", "into_boxed_slice", "into_boxed_str", "take") and not args and m not in self.builtins:
+            return r        # RefCell / Cell / Mutex payloads are modelled as the value itself
         if r[0] == "list" and m in ("capacity",) and not args:
             return I(len(r[1]))
         if r[0] in ("list", "str") and m in ("reserve", "reserve_exact", "shrink_to_fit", "shrink_to", "try_reserve") and m not in self.builtins:
